@@ -34,7 +34,7 @@ class Prop(BaseProp):
     budget = {"quick": 420, "thorough": 9000}
     must_see = ["N>=5", "repeated_train", "empty_train_in_list", "permutation_checked", "matrix_checked",
                 "tail:op1_tail_longer", "tail:op2_tail_longer", "tail:end_together", "sync_profile_checked",
-                "RI_true", "max_tau_positive", "mrts_positive"]
+                "RI_true", "max_tau_positive", "mrts_positive", "indices_selection", "indices_non_prefix"]
     arm_files = [("pyspike/generic.py", None),
                  ("pyspike/cython/python_backend.py", ["add_piece_wise_const_python", "add_piece_wise_lin_python",
                                                        "add_discrete_function_python"])]
@@ -49,6 +49,8 @@ class Prop(BaseProp):
                 # (C15 describes this), so the all-pairs identity is stated for explicit MRTS
                 case["kw"]["MRTS"] = 0
             case["perm_seed"] = rng.randrange(1 << 30)
+            N = len(case["trains"])
+            case["idx"] = common.pick_indices(rng, N) if (N >= 3 and rng.random() < 0.3) else None
             yield case
 
     def check(self, case, ctx):
@@ -56,8 +58,19 @@ class Prop(BaseProp):
         common.list_classes(ctx, case)
         tr = case["trains"]
         ts, te = case["ts"], case["te"]
+        full = ctx.trains(case)
+        idx = case.get("idx")
+        sel = {}
+        if idx is not None:
+            # the multivariate calls receive the whole list plus `indices`; the pair calls receive the selected trains
+            ctx.count("indices_selection")
+            common.idx_classes(ctx, idx, len(tr))
+            tr = [tr[i] for i in idx]
+            sts = [full[i] for i in idx]
+            sel = {"indices": idx}
+        else:
+            sts = full
         N = len(tr)
-        sts = ctx.trains(case)
         kwc = case["kw"]
         kw_isi = {"MRTS": kwc["MRTS"]}
         kw_spk = {"MRTS": kwc["MRTS"], "RI": kwc["RI"]}
@@ -72,11 +85,11 @@ class Prop(BaseProp):
         for q in pp[1:]:
             ctx.count("tail:" + tail_kind([float(v) for v in model.X], q.x.tolist()))
             model.add(ref.PWC(q.x, q.y))
-        mp_ = ctx.call(ps.isi_profile, sts, **kw_isi)
+        mp_ = ctx.call(ps.isi_profile, full, **sel, **kw_isi)
         if common.same_axis(ctx, mp_.x, model.X, "isi-multi-breakpoints", "multivariate isi_profile.x vs union of pair breakpoints"):
             common.arr_close(ctx, mp_.y, [v / M for v in model.Y], "isi-multi-profile", "multivariate isi_profile.y vs mean of pair profiles", rel=1e-10)
         dpair = [ctx.call(ps.isi_distance, sts[i], sts[j], **kw_isi) for i, j in pairs]
-        dm = ctx.call(ps.isi_distance, sts, **kw_isi)
+        dm = ctx.call(ps.isi_distance, full, **sel, **kw_isi)
         ctx.close(dm, sum(dpair) / M, "isi-multi-distance", "isi_distance(list) vs mean of pair distances", rel=1e-12)
         isi_pairs = dict(zip(pairs, dpair))
 
@@ -85,12 +98,12 @@ class Prop(BaseProp):
         model = ref.PWL(pp[0].x, pp[0].y1, pp[0].y2)
         for q in pp[1:]:
             model.add(ref.PWL(q.x, q.y1, q.y2))
-        mp_ = ctx.call(ps.spike_profile, sts, **kw_spk)
+        mp_ = ctx.call(ps.spike_profile, full, **sel, **kw_spk)
         if common.same_axis(ctx, mp_.x, model.X, "spike-multi-breakpoints", "multivariate spike_profile.x vs union of pair breakpoints"):
             common.arr_close(ctx, mp_.y1, [v / M for v in model.Y1], "spike-multi-profile", "multivariate spike_profile.y1 vs mean of pair profiles", rel=1e-10)
             common.arr_close(ctx, mp_.y2, [v / M for v in model.Y2], "spike-multi-profile", "multivariate spike_profile.y2 vs mean of pair profiles", rel=1e-10)
         dpair = [ctx.call(ps.spike_distance, sts[i], sts[j], **kw_spk) for i, j in pairs]
-        dm = ctx.call(ps.spike_distance, sts, **kw_spk)
+        dm = ctx.call(ps.spike_distance, full, **sel, **kw_spk)
         ctx.close(dm, sum(dpair) / M, "spike-multi-distance", "spike_distance(list) vs mean of pair distances", rel=1e-12)
         spk_pairs = dict(zip(pairs, dpair))
 
@@ -100,13 +113,13 @@ class Prop(BaseProp):
         dmodel = ref.DISC(pp[0].x, pp[0].y, pp[0].mp)
         for q in pp[1:]:
             dmodel.add(ref.DISC(q.x, q.y, q.mp))
-        sp = ctx.call(ps.spike_sync_profile, sts, **kw_syn)
+        sp = ctx.call(ps.spike_sync_profile, full, **sel, **kw_syn)
         times = dmodel.times()
         if common.same_axis(ctx, sp.x, [ts] + times + [te], "sync-multi-event-times", "multivariate spike_sync_profile.x"):
             common.arr_exact(ctx, sp.y[1:-1], [dmodel.ev[t][0] for t in times], "sync-multi-profile", "multivariate sync y vs summed pair coincidences")
             common.arr_exact(ctx, sp.mp[1:-1], [dmodel.ev[t][1] for t in times], "sync-multi-profile", "multivariate sync mp vs summed pair multiplicities")
         sy, sm = dmodel.sums()
-        sv = ctx.call(ps.spike_sync, sts, **kw_syn)
+        sv = ctx.call(ps.spike_sync, full, **sel, **kw_syn)
         ctx.close(sv, (sy / sm) if sm else 1.0, "sync-multi-value", "spike_sync(list) vs total coincidences / total multiplicity", rel=1e-12)
         syn_pairs = {}
         for (i, j), q in zip(pairs, pp):
@@ -118,7 +131,7 @@ class Prop(BaseProp):
         for name, fn, kw, vals, diag in (("isi", ps.isi_distance_matrix, kw_isi, isi_pairs, 0.0),
                                          ("spike", ps.spike_distance_matrix, kw_spk, spk_pairs, 0.0),
                                          ("sync", ps.spike_sync_matrix, kw_syn, syn_pairs, 1.0)):
-            Mx = np.asarray(ctx.call(fn, sts, **kw))
+            Mx = np.asarray(ctx.call(fn, full, **sel, **kw))
             if not ctx.expect(Mx.shape == (N, N), name + "-matrix-shape", "shape %r" % (Mx.shape,)):
                 continue
             ctx.expect(np.all(np.diag(Mx) == diag), name + "-matrix-diagonal", "diagonal %r, expected %r" % (np.diag(Mx).tolist(), diag))
@@ -129,8 +142,8 @@ class Prop(BaseProp):
         # ---------------- permutations
         if N >= 3:
             r2 = random.Random(case["perm_seed"])
-            base = {"isi": ctx.call(ps.isi_profile, sts, **kw_isi), "spike": ctx.call(ps.spike_profile, sts, **kw_spk), "sync": sp}
-            based = {"isi": ctx.call(ps.isi_distance, sts, **kw_isi), "spike": ctx.call(ps.spike_distance, sts, **kw_spk), "sync": sv}
+            base = {"isi": ctx.call(ps.isi_profile, full, **sel, **kw_isi), "spike": ctx.call(ps.spike_profile, full, **sel, **kw_spk), "sync": sp}
+            based = {"isi": ctx.call(ps.isi_distance, full, **sel, **kw_isi), "spike": ctx.call(ps.spike_distance, full, **sel, **kw_spk), "sync": sv}
             for _ in range(2):
                 perm = list(range(N))
                 r2.shuffle(perm)
